@@ -50,7 +50,7 @@ func witnesses() map[string]func(*core.Case) {
 	}
 	return map[string]func(*core.Case){
 		// join, the room confirms, a barrier: Joined() must be true
-		"muc:joined:false-while-in": seq(step{Op: "join", Label: "j"}, step{Op: "seen", N: 1}, step{Op: "self"}, step{Op: "await", Label: "j", Must: true}, step{Op: "barrier"}),
+		"muc:joined:false-while-in": seq(step{Op: "join", Label: "j"}, step{Op: "seen", Label: "j"}, step{Op: "self"}, step{Op: "await", Label: "j", Must: true}, step{Op: "barrier"}),
 		// M1: the unavailable presence is processed between Leave's request and its wait
 		"stall:muc.(*Channel).LeavePresence:select": forced("M1"),
 	}
